@@ -201,7 +201,7 @@ Definition agg_op_c14 (op : list Cvar.term) (alpha : Q) (q : list (N * Q)) : Q :
 Lemma c14_operator_total (op : list Cvar.term) (alpha : Q) :
   alpha_ok alpha = true -> forall q, Cvar.expectation_with_operator q op alpha = Ok (agg_op_c14 op alpha q).
 Proof.
-  intros Ha q. unfold agg_op_c14, Cvar.expectation_with_operator, Cvar.get_expectation.
+  intros Ha q. unfold agg_op_c14, Cvar.expectation_with_operator, Cvar.get_expectation, Cvar.get_expectation_gen.
   unfold alpha_ok in Ha. apply andb_prop in Ha. destruct Ha as [H0 H1].
   assert (Hc : Cvar.alpha_ok alpha = true).
   { unfold Cvar.alpha_ok, Cvar.Qltb. rewrite H1. destruct (Qle_bool alpha 0); [discriminate | reflexivity]. }
